@@ -359,4 +359,330 @@ theorem searchB_eq (a : Array Ent) (get : Nat → Option Ent) (x : Nat)
       · rw [if_neg he, if_neg he]; exact ih _
     · rw [if_neg hi, if_neg hi]
 
+/-! ### `Lookup` over the bytes = the abstract lookup -/
+
+theorem stride_eq (vs : Nat) (h : vs ≤ 255 - Generated.hashSize) : stride vs = Generated.hashSize + vs := by
+  unfold stride; rw [hashSize_eq] at *; omega
+
+theorem mask24 (x : Nat) : x &&& ((2^64 - 1) / 2^40) = x % 2 ^ (8 * Generated.hashSize) := by
+  have : ((2:Nat)^64 - 1) / 2^40 = 2^24 - 1 := by decide
+  rw [this, Nat.and_two_pow_sub_one_eq_mod]; rfl
+
+/-- **`Lookup` over the bytes `Seal` wrote answers exactly what the abstract reader answers**, for every key
+    (present, absent, or hashing outside the bucket table) -/
+theorem lookupB_encode (hf : HF) (ix : IndexA) (ok : EncOk ix) (hv : ValsOk ix) (key : Bytes) :
+    lookupB hf (encode ix).toArray
+        ⟨ix.valueSize, ix.numBuckets, (headerBytes ix.valueSize ix.numBuckets ix.metaKVs).length, ix.metaKVs⟩ key
+      = lookupA hf ix key := by
+  obtain ⟨Hd, hHd⟩ : ∃ Hd, Hd = headerBytes ix.valueSize ix.numBuckets ix.metaKVs := ⟨_, rfl⟩
+  obtain ⟨T, hT⟩ : ∃ T, T = tableFrom ix.valueSize ix.buckets (Hd.length + Generated.bucketHdrLen * ix.numBuckets) := ⟨_, rfl⟩
+  obtain ⟨Bd, hBd⟩ : ∃ Bd, Bd = ix.buckets.flatMap (bucketBody ix.valueSize) := ⟨_, rfl⟩
+  have hF : encode ix = (Hd ++ T) ++ Bd := by rw [encode, ← hHd, ← hT, ← hBd]
+  have hTlen : T.length = 16 * ix.numBuckets := by rw [hT, tableFrom_length, ok.len]
+  have hFlen : (encode ix).length = Hd.length + T.length + Bd.length := by
+    rw [hF, List.length_append, List.length_append]
+  have hsize := ok.size
+  rw [← hHd]
+  unfold lookupB lookupA
+  simp only []
+  cases hb : hf.bucket key ix.numBuckets with
+  | none => rfl
+  | some i =>
+    simp only []
+    by_cases hi : i < ix.numBuckets
+    · have hil : i < ix.buckets.length := by rw [ok.len]; exact hi
+      rw [if_neg (by omega), List.getElem?_eq_getElem hil]
+      simp only []
+      obtain ⟨b, hbdef⟩ : ∃ b, b = ix.buckets[i] := ⟨_, rfl⟩
+      rw [← hbdef]
+      have hmem : b ∈ ix.buckets := hbdef ▸ List.getElem_mem hil
+      have hnonce := ok.nonce b hmem
+      have hcount := ok.count b hmem
+      obtain ⟨hfit, hbody⟩ := bodies_slice ix.valueSize ix.buckets i hil
+      rw [← hbdef, ← hBd] at hfit hbody
+      obtain ⟨off, hoff⟩ : ∃ off, off = Hd.length + Generated.bucketHdrLen * ix.numBuckets + bodyOff ix.valueSize ix.buckets i :=
+        ⟨_, rfl⟩
+      have hoffv : off = Hd.length + T.length + bodyOff ix.valueSize ix.buckets i := by
+        rw [hoff, hTlen, bucketHdrLen_eq]
+      have hoff48 : off < 2^48 := by omega
+      -- the bucket header
+      have hrdH : rd (encode ix).toArray (Hd.length + Generated.bucketHdrLen * i) Generated.bucketHdrLen
+          = some (bucketHeader b off) := by
+        rw [bucketHdrLen_eq, rd_toArray, if_pos (by omega), hF]
+        rw [slice_append_left (Hd ++ T) Bd _ _ (by rw [List.length_append]; omega), slice_append_right,
+          hT, tableFrom_slice _ _ _ i hil, ← hbdef, hoff]
+      have hstr := stride_eq ix.valueSize ok.vs_le
+      have hvs : ix.valueSize % 256 = ix.valueSize := by
+        have := ok.vs_le; rw [hashSize_eq] at this; omega
+      -- one stored entry
+      have hget : ∀ idx (h : idx < b.entries.size),
+          (if idx * (Generated.hashSize + ix.valueSize) + (Generated.hashSize + ix.valueSize)
+                > b.entries.size * (Generated.hashSize + ix.valueSize) then none
+            else match rd (encode ix).toArray (off + idx * (Generated.hashSize + ix.valueSize))
+                  (Generated.hashSize + ix.valueSize) with
+              | none => none
+              | some eb => some (unle (eb.take 3), (eb.drop 3).take ix.valueSize)) = some b.entries[idx] := by
+        intro idx hidx
+        have hle : idx * (Generated.hashSize + ix.valueSize) + (Generated.hashSize + ix.valueSize)
+            ≤ b.entries.size * (Generated.hashSize + ix.valueSize) := by
+          have := Nat.mul_le_mul_right (Generated.hashSize + ix.valueSize) (Nat.succ_le_of_lt hidx)
+          rwa [Nat.succ_mul] at this
+        rw [if_neg (by omega)]
+        have e1 : off + idx * (Generated.hashSize + ix.valueSize)
+            = (Hd ++ T).length + (bodyOff ix.valueSize ix.buckets i + idx * (Generated.hashSize + ix.valueSize)) := by
+          rw [hoffv, List.length_append]; omega
+        rw [rd_toArray, if_pos (by omega), hF, e1, slice_append_right]
+        have := slice_slice Bd (bodyOff ix.valueSize ix.buckets i) (b.entries.size * (Generated.hashSize + ix.valueSize))
+          (idx * (Generated.hashSize + ix.valueSize)) (Generated.hashSize + ix.valueSize) hle
+        rw [hbody, bucketBody_entry _ _ _ hidx] at this
+        rw [← this]
+        simp only []
+        obtain ⟨d1, d2⟩ := entryBytes_decode ix.valueSize b.entries[idx] (ok.hash b hmem idx hidx) (hv b hmem idx hidx)
+        rw [d1, d2]
+      simp only [hrdH, bucketHeader_nonce b off hnonce, bucketHeader_count b off hcount, bucketHeader_hashLen,
+        bucketHeader_off b off hoff48, hstr, hvs]
+      have hsh : (64 + 256 - 3 * 8 % 256) % 256 = 40 := by decide
+      simp only [hsh]
+      rw [if_neg (by omega), mask24]
+      exact searchB_eq b.entries _ _ hget (b.entries.size + 1) 0
+    · rw [if_pos (by omega), List.getElem?_eq_none (by rw [ok.len]; omega)]
+
+/-! ### an index produced by `buildA` satisfies the limits -/
+
+theorem allSome_length {α : Type} : ∀ (l : List (Option α)) (r : List α), allSome l = some r → r.length = l.length
+  | [], r, h => by simp [allSome] at h; subst h; rfl
+  | none :: _, _, h => by simp [allSome] at h
+  | some a :: l, r, h => by
+    simp only [allSome] at h
+    split at h
+    · cases h
+    · rename_i l' hl'
+      simp only [Option.some.injEq] at h; subst h
+      simp [allSome_length l l' hl']
+
+/-- pointwise transfer through `allSome ∘ map` -/
+theorem allSome_map_eq {α β γ : Type} (f : α → Option β) (g : β → γ) (k : α → γ)
+    (hfk : ∀ x y, f x = some y → g y = k x) :
+    ∀ (l : List α) (r : List β), allSome (l.map f) = some r → r.map g = l.map k
+  | [], r, h => by simp [allSome] at h; subst h; rfl
+  | a :: l, r, h => by
+    simp only [List.map_cons] at h
+    cases hfa : f a with
+    | none => rw [hfa] at h; simp [allSome] at h
+    | some y =>
+      rw [hfa] at h
+      simp only [allSome] at h
+      split at h
+      · cases h
+      · rename_i l' hl'
+        simp only [Option.some.injEq] at h; subst h
+        simp [hfk a y hfa, allSome_map_eq f g k hfk l l' hl']
+
+/-- every slot of an eytzinger layout holds an element of the input -/
+theorem layout_getElem_mem (xs : List Ent) (p : Nat) (hp : p < (Eytz.layout xs.toArray).size) :
+    (Eytz.layout xs.toArray)[p] ∈ xs := by
+  have hs := Eytz.fill_spec xs.toArray xs.toArray.size 1 0 (Array.replicate xs.toArray.size default) (by omega) (by simp)
+  obtain ⟨_, hsz, hval⟩ := hs
+  have hp' : p < xs.toArray.size := by rw [← hsz]; exact hp
+  have := hval (p+1) (by omega) (by omega)
+  rw [show Eytz.inSubB 1 (p+1) = true from Eytz.inSub_one (p+1) (by omega)] at this
+  simp only [Nat.add_sub_cancel, if_true] at this
+  have hr := Eytz.rank_range xs.toArray.size (p+1) 1 0 (by omega) (Eytz.inSub_one (p+1) (by omega)) (by omega)
+  rw [Eytz.size_one] at hr
+  have hj : Eytz.rank xs.toArray.size 1 0 (p+1) < xs.length := by simpa using hr.2
+  have e1 : (Eytz.layout xs.toArray)[p] = (Eytz.layout xs.toArray).getD p default := by simp [Array.getD, hp]
+  rw [e1]
+  unfold Eytz.layout
+  rw [this, getD_toArray]
+  simp only [List.getD, List.getElem?_eq_getElem hj, Option.getD_some]
+  exact List.getElem_mem hj
+
+theorem layout_size (xs : List Ent) : (Eytz.layout xs.toArray).size = xs.length := by
+  have hs := Eytz.fill_spec xs.toArray xs.toArray.size 1 0 (Array.replicate xs.toArray.size default) (by omega) (by simp)
+  simpa [Eytz.layout] using hs.2.1
+
+/-- what a sealed bucket holds: a nonce below `mineAttempts`, one entry per inserted pair, each entry being
+    `(24-bit hash of some inserted key, its value)` -/
+theorem sealBucket_entries (hf : HF) (kvs : List KV) (b : BucketA) (h : sealBucket hf kvs = some b) :
+    b.nonce < Generated.mineAttempts ∧ b.entries.size = kvs.length ∧
+    ∀ i (hi : i < b.entries.size), ∃ kv ∈ kvs, b.entries[i] = (hf.entry b.nonce kv.key, kv.val) := by
+  unfold sealBucket at h
+  split at h
+  · cases h
+  · rename_i nonce sorted hm
+    simp only [Option.some.injEq] at h; subst h
+    obtain ⟨hperm, _⟩ := mine_strict hf kvs nonce sorted hm
+    obtain ⟨_, _, _, hn⟩ := mineFrom_spec hf kvs _ _ _ _ hm
+    refine ⟨by show nonce < Generated.mineAttempts; unfold mine at hm; omega, ?_, ?_⟩
+    · show (Eytz.layout sorted.toArray).size = kvs.length
+      rw [layout_size, hperm.length_eq]; simp [hashed]
+    · intro i hi
+      have hmem := layout_getElem_mem sorted i hi
+      rw [hperm.mem_iff] at hmem
+      unfold hashed at hmem
+      obtain ⟨kv, hkv, he⟩ := List.mem_map.mp hmem
+      exact ⟨kv, hkv, he.symm⟩
+
+theorem entry_lt (hf : HF) (n : Nat) (k : Bytes) : hf.entry n k < 2^24 := by
+  unfold HF.entry
+  exact Nat.mod_lt _ (by decide)
+
+/-- every bucket of a built index is the sealing of one of the `numBuckets` key classes -/
+theorem bucket_mem_of_build (hf : HF) (vs declared : Nat) (m : List (Bytes × Bytes)) (kvs : List KV) (ix : IndexA)
+    (h : buildA hf vs declared m kvs = .ok ix) :
+    ix.buckets.length = ix.numBuckets ∧
+    ∀ b ∈ ix.buckets, ∃ i, i < ix.numBuckets ∧ sealBucket hf (bucketKVs hf ix.numBuckets kvs i) = some b := by
+  obtain ⟨_, _, _, _, hall⟩ := buildA_ok hf vs declared m kvs ix h
+  have hlen : ix.buckets.length = ix.numBuckets := by simpa using allSome_length _ _ hall
+  refine ⟨hlen, ?_⟩
+  intro b hb
+  obtain ⟨i, hi, rfl⟩ := List.getElem_of_mem hb
+  obtain ⟨b', hb', hseal⟩ := bucket_of_build hf vs declared m kvs ix h i (by omega)
+  rw [List.getElem?_eq_getElem hi] at hb'
+  exact ⟨i, by omega, by rw [hseal, ← Option.some.inj hb']⟩
+
+/-! total number of stored entries ≤ number of inserted pairs -/
+
+theorem sum_map_add (l : List Nat) (f g : Nat → Nat) :
+    (l.map fun i => f i + g i).sum = (l.map f).sum + (l.map g).sum := by
+  induction l with
+  | nil => rfl
+  | cons x r ih => simp only [List.map_cons, List.sum_cons, ih]; omega
+
+theorem sum_indicator (c : Option Nat) (n : Nat) :
+    ((List.range n).map fun i => if c = some i then 1 else 0).sum ≤ 1 ∧
+    (((List.range n).map fun i => if c = some i then 1 else 0).sum = 1 → ∃ j, j < n ∧ c = some j) := by
+  induction n with
+  | zero => simp
+  | succ n ih =>
+    rw [List.range_succ, List.map_append, List.sum_append]
+    simp only [List.map_cons, List.map_nil, List.sum_cons, List.sum_nil, Nat.add_zero]
+    by_cases hc : c = some n
+    · have hz : ((List.range n).map fun i => if c = some i then 1 else 0).sum = 0 := by
+        have h1 := ih.1
+        have h2 := ih.2
+        by_cases e : ((List.range n).map fun i => if c = some i then 1 else 0).sum = 1
+        · obtain ⟨j, hj, hcj⟩ := h2 e
+          rw [hc] at hcj
+          have := Option.some.inj hcj
+          omega
+        · omega
+      rw [hz, if_pos hc]
+      exact ⟨by omega, fun _ => ⟨n, by omega, hc⟩⟩
+    · rw [if_neg hc]
+      refine ⟨by have := ih.1; omega, fun e => ?_⟩
+      obtain ⟨j, hj, hcj⟩ := ih.2 (by omega)
+      exact ⟨j, by omega, hcj⟩
+
+theorem sum_bucketKVs_le (hf : HF) (nb : Nat) (kvs : List KV) :
+    ((List.range nb).map fun i => (bucketKVs hf nb kvs i).length).sum ≤ kvs.length := by
+  induction kvs with
+  | nil =>
+    have : ∀ l : List Nat, (l.map fun _ => 0).sum = 0 := by
+      intro l; induction l with
+      | nil => rfl
+      | cons x r ih => simp [ih]
+    simp [bucketKVs, this]
+  | cons kv r ih =>
+    have e : ∀ i, (bucketKVs hf nb (kv :: r) i).length
+        = (if hf.bucket kv.key nb = some i then 1 else 0) + (bucketKVs hf nb r i).length := by
+      intro i
+      unfold bucketKVs
+      rw [List.filter_cons]
+      by_cases hc : hf.bucket kv.key nb = some i
+      · simp [hc]; omega
+      · simp [hc]
+    simp only [e]
+    rw [sum_map_add]
+    have := (sum_indicator (hf.bucket kv.key nb) nb).1
+    rw [List.length_cons]
+    omega
+
+theorem bodies_length (vs : Nat) (bs : List BucketA) :
+    (bs.flatMap (bucketBody vs)).length = (bs.map fun b => b.entries.size).sum * (Generated.hashSize + vs) := by
+  induction bs with
+  | nil => simp
+  | cons b r ih =>
+    rw [bodies_cons, List.length_append, bucketBody_length, ih, List.map_cons, List.sum_cons, Nat.add_mul]
+
+theorem encode_length (ix : IndexA) :
+    (encode ix).length = 25 + (metaBytes ix.metaKVs).length + 16 * ix.buckets.length
+      + (ix.buckets.map fun b => b.entries.size).sum * (Generated.hashSize + ix.valueSize) := by
+  rw [encode, List.length_append, List.length_append, headerBytes_length, tableFrom_length, bodies_length]
+
+/-- the number of stored entries of a built index is at most the number of inserted pairs -/
+theorem entries_sum_le (hf : HF) (vs declared : Nat) (m : List (Bytes × Bytes)) (kvs : List KV) (ix : IndexA)
+    (h : buildA hf vs declared m kvs = .ok ix) : (ix.buckets.map fun b => b.entries.size).sum ≤ kvs.length := by
+  obtain ⟨_, _, _, _, hall⟩ := buildA_ok hf vs declared m kvs ix h
+  have := allSome_map_eq (fun i => sealBucket hf (bucketKVs hf ix.numBuckets kvs i)) (fun b => b.entries.size)
+    (fun i => (bucketKVs hf ix.numBuckets kvs i).length)
+    (fun i b hb => (sealBucket_entries hf _ b hb).2.1) _ _ hall
+  rw [this]
+  exact sum_bucketKVs_le hf ix.numBuckets kvs
+
+/-- metadata within the `indexmeta` limits -/
+def MetaOk (m : List (Bytes × Bytes)) : Prop :=
+  m.length ≤ Generated.metaMaxNumKVs ∧ ∀ kv ∈ m, kv.1.length ≤ Generated.metaMaxKeySize ∧ kv.2.length ≤ Generated.metaMaxValueSize
+
+/-- the file of a built index is shorter than 2^48 bytes (so the `uint48` file offsets are exact) as soon as the
+    bucket count and the item count fit `uint32` -/
+theorem encode_length_lt (hf : HF) (vs declared : Nat) (m : List (Bytes × Bytes)) (kvs : List KV) (ix : IndexA)
+    (h : buildA hf vs declared m kvs = .ok ix) (hm : MetaOk m) (hvs : vs ≤ 255)
+    (hnb : numBucketsFor declared < 2^32) (hn : kvs.length < 2^32) : (encode ix).length < 2^48 := by
+  obtain ⟨e1, e2, e3, _, _⟩ := buildA_ok hf vs declared m kvs ix h
+  obtain ⟨hlen, _⟩ := bucket_mem_of_build hf vs declared m kvs ix h
+  have hsum := entries_sum_le hf vs declared m kvs ix h
+  have hmb := metaBytes_length_le m hm.2
+  have hml := hm.1
+  simp only [Generated.metaMaxNumKVs] at hml
+  rw [encode_length, hlen, e1, e2, e3, hashSize_eq]
+  have hmul : (ix.buckets.map fun b => b.entries.size).sum * (3 + vs) ≤ kvs.length * 258 :=
+    Nat.mul_le_mul hsum (by omega)
+  omega
+
+/-- **a built index satisfies every limit of the format**, under size hypotheses on the inputs only -/
+theorem encOk_of_build (hf : HF) (vs declared : Nat) (m : List (Bytes × Bytes)) (kvs : List KV) (ix : IndexA)
+    (h : buildA hf vs declared m kvs = .ok ix) (hm : MetaOk m) (hvs : vs ≤ 255 - Generated.hashSize)
+    (hnb : numBucketsFor declared < 2^32) (hn : kvs.length < 2^32) : EncOk ix := by
+  obtain ⟨e1, e2, e3, _, _⟩ := buildA_ok hf vs declared m kvs ix h
+  obtain ⟨hlen, hbk⟩ := bucket_mem_of_build hf vs declared m kvs ix h
+  have hpar : ¬ (vs = 0 ∨ vs > 255 ∨ declared = 0) := by
+    intro hbad
+    unfold buildA at h
+    rw [if_pos hbad] at h
+    cases h
+  have hnbpos : 0 < numBucketsFor declared := by
+    unfold numBucketsFor
+    simp only [Generated.targetEntriesPerBucket]
+    omega
+  refine ⟨by omega, by omega, by omega, by omega, hlen, by rw [e3]; exact hm.1, by rw [e3]; exact hm.2, ?_, ?_, ?_,
+    encode_length_lt hf vs declared m kvs ix h hm (by rw [hashSize_eq] at hvs; omega) hnb hn⟩
+  · intro b hb
+    obtain ⟨i, _, hs⟩ := hbk b hb
+    have := (sealBucket_entries hf _ b hs).1
+    simp only [Generated.mineAttempts] at this
+    omega
+  · intro b hb
+    obtain ⟨i, _, hs⟩ := hbk b hb
+    have h1 := (sealBucket_entries hf _ b hs).2.1
+    have h2 : (bucketKVs hf ix.numBuckets kvs i).length ≤ kvs.length := List.length_filter_le _ _
+    omega
+  · intro b hb j hj
+    obtain ⟨i, _, hs⟩ := hbk b hb
+    obtain ⟨kv, _, he⟩ := (sealBucket_entries hf _ b hs).2.2 j hj
+    rw [he]
+    exact entry_lt hf _ _
+
+/-- when only `valueSize`-byte values are inserted, only such values are stored -/
+theorem valsOk_of_build (hf : HF) (vs declared : Nat) (m : List (Bytes × Bytes)) (kvs : List KV) (ix : IndexA)
+    (h : buildA hf vs declared m kvs = .ok ix) (hval : ∀ kv ∈ kvs, kv.val.length = vs) : ValsOk ix := by
+  obtain ⟨e1, _, _, _, _⟩ := buildA_ok hf vs declared m kvs ix h
+  obtain ⟨_, hbk⟩ := bucket_mem_of_build hf vs declared m kvs ix h
+  intro b hb j hj
+  obtain ⟨i, _, hs⟩ := hbk b hb
+  obtain ⟨kv, hkv, he⟩ := (sealBucket_entries hf _ b hs).2.2 j hj
+  rw [he, e1]
+  unfold bucketKVs at hkv
+  exact hval kv (List.mem_filter.mp hkv).1
+
 end CI
